@@ -34,6 +34,17 @@ func genC07(d *Draw) Case {
 			}
 		}
 	}
+	// some tasks are answered with an error whose handler decision comes late (or never before the cancel)
+	if d.N(3) == 2 {
+		c.Scripts = map[string][]AnswerSpec{}
+		for _, t := range prog.Defs.Procs[0].AllTasks() {
+			if d.N(3) == 0 {
+				modes := []string{"skip", "exit", "retry", "err"}
+				sp := AnswerSpec{Mode: modes[d.N(len(modes))], Retries: 1 + d.N(2), LateHandler: d.N(2) == 1}
+				c.Scripts[t] = []AnswerSpec{sp}
+			}
+		}
+	}
 	nw := 1 + d.N(2)
 	for i := 0; i < nw; i++ {
 		c.Waiters = append(c.Waiters, WaiterPlan{})
